@@ -131,6 +131,11 @@ pub struct RelayCase {
     /// else IN): another question, which the upstream has to be asked
     #[serde(default)]
     pub requery_other_class: bool,
+    /// the upstream's reply carries the question with its name in lower case instead of an
+    /// octet-for-octet copy (a server that does not preserve the case of the query name); the
+    /// client must still get *its own* question back
+    #[serde(default)]
+    pub upstream_lowercases_question: bool,
 }
 
 fn query_edns_strategy() -> impl Strategy<Value = Option<dns::Edns>> {
@@ -176,6 +181,8 @@ pub fn relay_case_strategy(sz: MsgSize, allow_requery: bool) -> impl Strategy<Va
             // derived from values already drawn, so that older replay files keep their meaning
             let requery_flip_case = requery_ms.is_some() && (qtype ^ compress as u16) & 1 == 1;
             let requery_other_class = requery_ms.is_some() && !requery_flip_case && (qname.len() + qtype as usize / 2) % 2 == 0;
+            // one upstream in four does not preserve the letter case of the question it echoes
+            let upstream_lowercases_question = (qtype as usize + qname.iter().map(|l| l.len()).sum::<usize>()) % 4 == 1;
             // the upstream is a recursive resolver answering a query: no TC games here
             reply.header.tc = false;
             reply.header.qr = true;
@@ -212,6 +219,7 @@ pub fn relay_case_strategy(sz: MsgSize, allow_requery: bool) -> impl Strategy<Va
                 requery_flip_case,
                 requery_other_transport: false,
                 requery_other_class,
+                upstream_lowercases_question,
             }
         })
 }
@@ -267,6 +275,7 @@ impl<'a> C03Relay<'a> {
             qkey(&question),
             Script {
                 reply: Reply::Model(c.reply.clone(), compress),
+                question_rewrite: if c.upstream_lowercases_question { 1 } else { 0 },
                 // the forwarder advertises 4096 octets; a real upstream keeps to that over UDP
                 udp_truncate_to: if self.mode == "C04" { Some(4096) } else { None },
                 ..Default::default()
@@ -741,6 +750,7 @@ pub fn run_c04_wire(ctx: &Ctx) {
             requery_flip_case: false,
             requery_other_transport: false,
             requery_other_class: false,
+            upstream_lowercases_question: false,
         };
         let out = exec_one(&prop, &case);
         ctx.record(prop.sub(), &case, &out);
@@ -778,6 +788,7 @@ pub fn run_c04_wire(ctx: &Ctx) {
                 requery_flip_case: false,
                 requery_other_transport: false,
                 requery_other_class: false,
+            upstream_lowercases_question: false,
             })
             .collect();
         let outs = prop.exec_batch(&cases);
@@ -821,6 +832,7 @@ pub fn run_c04_wire(ctx: &Ctx) {
                 requery_flip_case: false,
                 requery_other_transport: true,
                 requery_other_class: false,
+            upstream_lowercases_question: false,
             });
         }
         let outs = prop.exec_batch(&cases);
